@@ -1855,6 +1855,17 @@ class CollocatedIntegratedOptimizationProblem(OptimizationProblem, metaclass=ABC
 
                     nominal = nominal_delayed_feedback[i]
 
+                    # The expression evaluated at the nominals may vanish, e.g. for the
+                    # difference of two variables with equal nominals. Do not scale then.
+                    try:
+                        nominal_value = float(ca.evalf(nominal))
+                    except RuntimeError:
+                        # Symbolic nominal; leave as is.
+                        pass
+                    else:
+                        if nominal_value == 0.0 or not np.isfinite(nominal_value):
+                            nominal = 1.0
+
                     g.append((x_in - x_out_delayed) / nominal)
                     zeros = np.zeros(n_collocation_times)
                     lbg.extend(zeros)
